@@ -158,10 +158,12 @@ MANIFEST = dict(
     level_text=(
         "Static analysis (no execution): forwarding completeness of the 10 transposable options through Module -> "
         "functional -> kernel, the mode table of the shared kernel, and a batch-mixing rule showing that the kernel's "
-        "batch-wide reductions cannot make one pair's result depend on another. These are the structural clauses of "
+        "batch-wide reductions cannot make one pair's result depend on another; the per-prefix table is filled with the "
+        "padding value at prefix index >= hyp_len + (0 if exclude_last else 1) and only layout operations follow the fill; "
+        "for equal costs both result forms are rescaled by the common cost exactly once. These are the structural clauses of "
         "C01 ('under the given costs', 'either layout', 'never depends on the other pairs'); equality of the vectorised "
         "recurrence with the Levenshtein minimum quantifies over tensor values and is not decided."),
     level_note="Trusted: python ast; formal names / docstring tables as oracle for what each public name computes.",
-    technique="static analysis: argument binding / forwarding completeness, literal mode-table agreement, batch-mixing reduction rule",
+    technique="static analysis: argument binding / forwarding completeness, literal mode-table agreement, batch-mixing reduction rule, write-last (def-use) rule for the padding value",
     design_ref="DESIGN.md section 4 C01",
 )
